@@ -110,6 +110,9 @@ def jobs_for(pid, tier, seed):
                       cancel=False, take=False, probe=True, lifo=False))
         J.append(mfam('thread level: retain racing get / return (idle objects, predicate and detach as schedule points)', ['C01'], 10 if q else 14, tasks=2, env={'create': ('ok',), 'recycle': ('ok',)},
                       thread_mode=True, prefix=(('get', 'T1', 0), ('get', 'T2', 0), ('drop', 'T1', 0)), ctl=('retain',), max_ctl=1, cancel=False, take=False, lifo=False, max_gets=2, max_size_concrete=2, probe=False))
+        J.append(mfam('thread level: non-blocking get racing retain / return (lock contention: callbacks under the lock are schedule points iff the crate probes locks)', ['C01'], 10 if q else 14, tasks=2,
+                      env={'create': ('ok',), 'recycle': ('ok',)}, thread_mode=True, prefix=(('get', 'T1', 0), ('drop', 'T1', 0)), timeout_variants=[('zero', None, None)], ctl=('retain',), max_ctl=1,
+                      cancel=False, take=False, lifo=False, max_gets=1, max_size_concrete=1, probe=False))
     elif pid == 'C02':
         J.append(mfam('2 tasks, ok/err/pending/panic', ['C02'], 5 if q else 7, tasks=2, env={'create': OEPP, 'recycle': OEPP}))
         J.append(mfam('3 tasks, ok/err', ['C02'], 4 if q else 6, tasks=3, env={'create': OE, 'recycle': OE}))
@@ -136,6 +139,9 @@ def jobs_for(pid, tier, seed):
         J.append(mfam('a get() that owns an object is abandoned after close() / resize(0) ran meanwhile', ['C03'], 6 if q else 8, tasks=1, hooks=(('post_create', 'async'), ('pre_recycle', 'async')),
                       env={'create': ('ok', 'pending'), 'recycle': ('ok', 'pending'), 'hook': ('ok', 'pending', 'panic')}, ctl=('close', 'resize'), resize_targets=(0,), max_ctl=1, take=False, probe=False))
         J.append(mfam('2 tasks, waiter + cancel, global invariants', ['C03', 'C01', 'C02', 'C11'], 5 if q else 7, tasks=2, hooks=(('pre_recycle', 'async'),), env={'create': OEP, 'recycle': OEP, 'hook': ('ok', 'pending')}, take=False))
+        J.append(mfam('thread level: a get() suspended in recycle is abandoned while retain() / status() run on another thread', ['C03', 'C11'], 10 if q else 14, tasks=2, max_size_concrete=2,
+                      env={'create': ('ok',), 'recycle': ('ok', 'pending')}, thread_mode=True, prefix=(('get', 'T1', 0), ('get', 'T2', 0), ('drop', 'T1', 0), ('drop', 'T2', 0)),
+                      ctl=('retain', 'status'), max_ctl=1, take=False, lifo=False, max_gets=2, probe=False))
     elif pid == 'C04':
         E = {'create': OE, 'recycle': OE, 'hook': OE}
         J.append(mfam('1 task, 6 hooks (2 per kind, sync+async), ok/err', ['C04'], 6 if q else 8, tasks=1, hooks=H6, env=E, cancel=False, take=False, probe=False))
@@ -193,6 +199,9 @@ def jobs_for(pid, tier, seed):
         J.append(mfam('2 tasks, pool-level zero wait', ['C10'], 5 if q else 7, tasks=2, env={'create': OEP, 'recycle': OEP}, pool_timeouts=('zero', None, None), take=False, probe=False, lifo=False))
         TG = [('timeout_get', 'zero'), ('timeout_get', 'pos'), ('timeout_get', None), 'get', 'try_get']
         for rt_ in (True, False):
+            # 'sub': a positive timeout below one second with symbolic nanoseconds (per call and configured)
+            J.append(ufam(f'unmanaged pool: sub-second timeouts (symbolic nanoseconds), runtime {"present" if rt_ else "absent"}', ['C10'], 4 if q else 6, tasks=2, ctor='from_config',
+                          config_timeout='sub', runtime=rt_, get_variants=[('timeout_get', 'sub'), 'get', ('timeout_get', 'zero')], add_variants=['try_add'], max_adds=1, take=False))
             for ct in (None, 'pos'):
                 J.append(ufam(f'unmanaged pool: timeout_get / get / try_get, runtime {"present" if rt_ else "absent"}, configured timeout {ct}', ['C10'], 5 if q else 7, tasks=2, ctor='from_config',
                               config_timeout=ct, runtime=rt_, get_variants=TG, add_variants=['try_add'], max_adds=2, take=False))
@@ -213,6 +222,8 @@ def jobs_for(pid, tier, seed):
         J.append(ufam('task level: close at any point, 2 tasks, all calls', ['C12'], 5 if q else 7, tasks=2, get_variants=GV, add_variants=['add', 'try_add'], ctl=('close', 'status'), max_ctl=2))
         J.append(ufam('task level: from(Vec) 2 objects, close, returns after close', ['C12'], 6 if q else 8, tasks=2, ctor='from_vec', initial=2, get_variants=['get', 'try_get'], add_variants=['try_add'], max_adds=1, ctl=('close',)))
         J.append(ufam('thread level: try_get / get racing close', ['C12'], 12 if q else 16, tasks=2, thread_mode=True, ctor='from_vec', initial=1, get_variants=['try_get', 'get'], add_variants=['try_add'], max_adds=0, ctl=('close',), cancel=False, take=False))
+        J.append(ufam('thread level: two close() calls racing (controller and a task thread), try_add / try_get afterwards', ['C12'], 12 if q else 16, tasks=2, thread_mode=True, ctor='from_vec', initial=1,
+                      get_variants=['try_get'], add_variants=['try_add'], max_adds=1, max_gets=1, ctl=('close',), max_ctl=1, task_roles={'T1': ('close',), 'T2': ('add', 'get', 'drop')}, cancel=False, take=False))
         J.append(ufam('thread level: add / try_add racing close', ['C12'], 12 if q else 16, tasks=2, thread_mode=True, get_variants=['try_get'], add_variants=['try_add', 'add'], max_adds=2, ctl=('close',), cancel=False, take=False, max_gets=0))
         J.append(ufam('thread level: return / take racing close', ['C12'], 12 if q else 16, tasks=2, thread_mode=True, ctor='from_vec', initial=2, prefix=(('uget', 'T1', 0), ('uget', 'T2', 0)),
                       get_variants=['try_get'], add_variants=['try_add'], max_adds=0, ctl=('close',), cancel=False))
@@ -271,6 +282,9 @@ def jobs_for(pid, tier, seed):
                       env={'create': ('ok',), 'recycle': ('ok',)}, ctl=('retain',), max_ctl=1, cancel=False, take=False, probe=False))
         J.append(mfam('idle objects that survive a shrink / grow keep their order (max_size 3)', ['C08'], 7 if q else 9, tasks=3, max_size_concrete=3, prefix=P3,
                       env={'create': ('ok',), 'recycle': ('ok',)}, ctl=('resize',), resize_targets=(2, 4), max_ctl=1, cancel=False, take=False, probe=False))
+        P2 = (('get', 'T1', 0), ('get', 'T1', 0), ('get', 'T2', 0), ('drop', 'T1', 0), ('drop', 'T1', 0))
+        J.append(mfam('thread level: return / get racing a shrink (detach as schedule point): idle order, creation only without idle objects (max_size 3)', ['C08'], 12 if q else 16, tasks=2, max_size_concrete=3, prefix=P2,
+                      env={'create': ('ok',), 'recycle': ('ok',)}, thread_mode=True, ctl=('resize',), resize_targets=(2,), max_ctl=1, cancel=False, take=False, max_gets=3, lifo=False, probe=False))
     elif pid == 'C11':
         J.append(mfam('2 tasks, ok/err/pending/panic', ['C11'], 5 if q else 7, tasks=2, env={'create': OEPP, 'recycle': OEPP}, probe=False))
         J.append(mfam('3 tasks, ok/err', ['C11'], 5 if q else 7, tasks=3, env={'create': OE, 'recycle': OE}, probe=False))
@@ -278,6 +292,9 @@ def jobs_for(pid, tier, seed):
         J.append(mfam('2 tasks + retain/resize/close', ['C11'], 5 if q else 7, tasks=2, env={'create': OE, 'recycle': OE}, ctl=('retain', 'resize', 'close'), probe=False))
         J.append(mfam('task level: close / resize while a get() is suspended in create / recycle', ['C11'], 5 if q else 7, tasks=2, env={'create': ('ok', 'pending'), 'recycle': ('ok', 'pending')},
                       ctl=('close', 'resize', 'status'), resize_targets=(0, 1), max_ctl=2, probe=False, take=False, cancel=False))
+        J.append(mfam('thread level: surplus object returned after a shrink / close while status() is read (Manager::detach as schedule point)', ['C11'], 10 if q else 14, tasks=2, max_size_concrete=2,
+                      env={'create': ('ok',), 'recycle': ('ok',)}, thread_mode=True, prefix=(('get', 'T1', 0), ('get', 'T2', 0)), ctl=('resize', 'close'), resize_targets=(0, 1), max_ctl=1,
+                      cancel=False, take=False, lifo=False, max_gets=1, probe=False))
         J.append(mfam('thread level: retain racing get / take / return (window between status() and the lock)', ['C11'], 10 if q else 14, tasks=2, env={'create': ('ok',), 'recycle': ('ok',)},
                       thread_mode=True, prefix=(('get', 'T1', 0),), ctl=('retain',), max_ctl=1, cancel=False, lifo=False, max_gets=1, max_size_concrete=2, probe=False))
         J.append(mfam('2 tasks, release profile (wrapping counters)', ['C11'], 5 if q else 7, tasks=2, env={'create': OEPP, 'recycle': OEPP}, probe=False, overflow='wrap'))
